@@ -32,7 +32,7 @@ def level_parts(rng):
     return parts_fn
 
 
-def gen_case(ctx, rng, shared_keys=False):
+def gen_case(ctx, rng, shared_keys=False, dates=False):
     gen = T.TreeGen(rng, level_parts(rng), max_depth=2 if ctx.quick else rng.choice([2, 3]), max_branch=rng.choice([3, 4]), p_pool=0.15, input_fn=lambda d: rng.choice([f"in-{d}"] * 8 + [None, ""]))
     spec = gen.tree()
     keys = list(ALL_FC_KEYS)
@@ -65,6 +65,24 @@ def gen_case(ctx, rng, shared_keys=False):
 
         parts = GA.gen_parts(rng, cond, max_parts=2, p_bare=0.0, p_prefix=0.3, prefix_ops=("X",))
         node["x"] = T.make_expression(parts, rng)
+    if dates:
+        # the shipped date-time constraints 932-935 on inputs that denote the SAME instant in different notations (and are no limit of a
+        # Strom-/Gastag, so that the results carry messages): what is said about one element's input must not show up at another element
+        from vf.ref import berlin as B
+
+        t = rng.randrange(B.T_1996, B.T_2038) // 60 * 60 + 17
+        offsets = [0, 3600, 7200, -3600, 19800, -18000, 12600, 34200, -34200]
+        rng.shuffle(offsets)
+        n = 0
+        for node in T.walk(spec):
+            if node["k"] != "F":
+                continue
+            key = rng.choice(["932", "933", "934", "935"])
+            cond = rng.choice([["fc", key], ["then", ["rc", rng.choice(RC)], ["fc", key]], ["and", ["rc", rng.choice(RC)], ["fc", key]]])
+            node["x"] = T.make_expression([[rng.choice(["MUSS", "X", "KANN"]), cond]], rng)
+            node["input"] = B.fmt(t, offsets[n % len(offsets)])
+            n += 1
+        owners = {}
     asg = {k: rng.choice("FFFU") for k in RC}
     return {"spec": spec, "owners": owners, "asg": asg, "soll": rng.random() < 0.5, "schedule_seed": rng.randrange(1 << 30), "shared": shared_keys, "stale": rng.random() < 0.5}
 
@@ -111,8 +129,21 @@ async def check_tree(ctx, case):
         ctx.count("trees_with_concurrent_elements")
         ctx.nontrivial([spec, sorted(asg.items()), case["schedule_seed"]])
     ctx.count("elements_with_fc_events", len(elements_seen))
-    # ---- second oracle: the element's result in the tree run equals the result of validating the element on its own
+    # ---- nothing that was said about another element's input may show up in this element's result
     got = {r.discriminator: r for r in out[1]}
+    texts = {d: repr(i) for d, i in inputs.items() if isinstance(i, str) and len(i) >= 5}
+    for d in inputs:
+        if d not in got:
+            continue
+        res = got[d].validation_result
+        said = f"{getattr(res, 'format_error_message', None) or ''} | {res.hints or ''}"
+        for other, text in texts.items():
+            if other != d and text != texts.get(d) and text in said:
+                ctx.violation("foreign-input-seen", f"the result of data element {d} (input {inputs[d]!r}) talks about the input of data element {other}: {said[:300]}")
+                return
+    if any(isinstance(i, str) and i[:2] in ("19", "20") and "T" in i for i in inputs.values()):
+        ctx.count("trees_with_same_instant_in_different_notations")
+    # ---- second oracle: the element's result in the tree run equals the result of validating the element on its own
     for seg in (n for n in T.walk(spec) if n["k"] == "S"):
         if seg["d"] not in got:
             continue
@@ -148,7 +179,7 @@ async def run(ctx):
     rng = ctx.rng
     E.install()
     for i in range(ctx.budget(330, 33_000)):
-        case = gen_case(ctx, rng, shared_keys=i % 4 == 3)
+        case = gen_case(ctx, rng, shared_keys=i % 4 == 3, dates=i % 6 == 1)
         await check_tree(ctx, case)
         if i % 90 == 0:
             ctx.sample({"free_text_elements": [(n["d"], T.expr_string(n["x"]), n["input"]) for n in T.walk(case["spec"]) if n["k"] == "F"][:8], "owners": dict(list(case["owners"].items())[:8])}, cls="tree")
